@@ -2896,6 +2896,71 @@ async fn element_governance_changes_join_the_transaction_journal() {
 }
 
 #[tokio::test]
+async fn describing_a_transaction_filters_its_change_list_like_history_does() {
+    // §103: one journal row read by id is still the journal.
+    let nexus = stocked("describe_tx_security").await;
+    two_classified_concepts(&nexus).await;
+    let reader = agent(nexus.governance(), "kip:principal:reader").await;
+    nexus
+        .governance()
+        .create_grant(
+            GrantDraft {
+                space_id: DEFAULT_SPACE.into(),
+                grantee_principal: reader.clone(),
+                actions: vec!["read".into(), "read_history".into()],
+                constraints: AuthorityConstraints {
+                    max_classification: "public".into(),
+                    ..Default::default()
+                },
+                ..Default::default()
+            },
+            SYSTEM_PRINCIPAL,
+        )
+        .await
+        .unwrap();
+    let session = nexus.session(AuthContext::principal(&reader));
+    let owner = nexus.system_session();
+
+    // Find the transactions that wrote each Concept, as the owner sees them.
+    let journal = run_as(&owner, "HISTORY SPACE").await;
+    let tx_of = |id: &str| -> String {
+        journal
+            .first_result()
+            .unwrap()
+            .as_array()
+            .unwrap()
+            .iter()
+            .find(|entry| {
+                entry["changes"].as_array().is_some_and(|changes| {
+                    changes
+                        .iter()
+                        .any(|change| change["id"] == id && change["op"] == "create")
+                })
+            })
+            .map(|entry| entry["tx_id"].as_str().unwrap().to_string())
+            .unwrap()
+    };
+    let (public_tx, secret_tx) = (tx_of("C-1"), tx_of("C-2"));
+
+    let visible = run_as(&session, &format!("DESCRIBE TRANSACTION {public_tx:?}")).await;
+    assert_eq!(visible.status, TopLevelStatus::Succeeded);
+    assert_eq!(visible.first_result().unwrap()["changes"][0]["id"], "C-1");
+
+    // The one that created the secret Concept answers as one that never was.
+    let hidden = run_as(&session, &format!("DESCRIBE TRANSACTION {secret_tx:?}")).await;
+    let never = run_as(
+        &session,
+        &format!("DESCRIBE TRANSACTION \"{DEFAULT_SPACE}#9999\""),
+    )
+    .await;
+    assert_eq!(error_code(&hidden), "TransactionUnknown");
+    assert_eq!(error_code(&hidden), error_code(&never));
+    // And the owner still reads it whole.
+    let whole = run_as(&owner, &format!("DESCRIBE TRANSACTION {secret_tx:?}")).await;
+    assert_eq!(whole.first_result().unwrap()["changes"][0]["id"], "C-2");
+}
+
+#[tokio::test]
 async fn elevation_honours_the_grants_influence_ceiling() {
     let nexus = stocked("elevation_ceiling").await;
     run_as(
